@@ -45,7 +45,10 @@ Inductive tree :=
    so one register models both) - reads see the value at the clock edge, a write is pending *)
 | TSetW (z : Z) (t : tree)         (* counter <= z *)
 | TDecW (t : tree)                 (* counter <= counter - 1 *)
-| TIfW (a b : tree).               (* if counter /= 0 then a else b *)
+| TIfW (a b : tree)                (* if counter /= 0 then a else b *)
+(* run-time duration (input port [dur]) *)
+| TSetWD (t : tree)                (* counter <= dur - 1 *)
+| TIfD0 (a b : tree).              (* if dur = 0 then a else b *)
 
 Definition machine := list (nat * tree).
 
@@ -66,6 +69,8 @@ Fixpoint run_tree (inp : cinp) (t : tree) (cur : nat) (w : work) (rc pc : Z) : n
   | TSetW z t' => run_tree inp t' cur w rc z
   | TDecW t' => run_tree inp t' cur w rc (rc - 1)
   | TIfW a b => if rc =? 0 then run_tree inp b cur w rc pc else run_tree inp a cur w rc pc
+  | TSetWD t' => run_tree inp t' cur w rc (inp.(i_dur) - 1)
+  | TIfD0 a b => if inp.(i_dur) =? 0 then run_tree inp a cur w rc pc else run_tree inp b cur w rc pc
   end.
 
 (** state register, objects, wait counter *)
@@ -147,7 +152,9 @@ Fixpoint ctree (s : stmt) (o : nat) (E : env) (first : bool) (rest : tree) : tre
      [counter <<= n - 1; while counter: counter <<= counter - 1] (the loop head is a new state:
      the assignment made the current state non-empty) *)
   | Wait n => if n =? 1 then (if first then rest else TGoto o) else TSetW (n - 1) (TGoto o)
-  | WaitIn _ => TStay      (* outside the modelled grammar *)
+  (* wait_for(self.dur [, allow_zero=True]): [if dur == 0: return] (allow_zero only), then
+     [counter <<= dur - 1] and the same loop *)
+  | WaitIn az => if az then TIfD0 rest (TSetWD (TGoto o)) else TSetWD (TGoto o)
   end.
 
 (** code of a loop-head state [h]: test, first segment of the body with the back edge to [h]
@@ -175,6 +182,7 @@ Fixpoint cstates (s : stmt) (o : nat) (E : env) (first : bool) (rest : tree) : m
   | Wait n =>
       if n =? 1 then (if first then [] else [(o, rest)])
       else [(o, TIfW (TDecW (TGoto o)) rest)]
+  | WaitIn _ => [(o, TIfW (TDecW (TGoto o)) rest)]
   | _ => []
   end.
 
@@ -194,6 +202,7 @@ Fixpoint zfall (s : stmt) (f : bool) : bool :=
   | Await (ACond _) | Await ATrue | WhileFalse _ | While _ _ => f
   | Call b => zfall b f || zret b f
   | Wait n => (n =? 1) && f
+  | WaitIn az => az
   | _ => false
   end
 with zret (s : stmt) (f : bool) : bool :=
@@ -224,23 +233,31 @@ Fixpoint zcnt (s : stmt) (f : bool) : bool :=
 (** structure: the modelled constructs; break/continue only inside a loop; no continue
     reachable from its loop head without a clock (the compiler's
     "continue-statement cannot be defined in first state of while-loop") *)
-Fixpoint wf (s : stmt) (inloop incall first : bool) : bool :=
+Fixpoint wf (s : stmt) (inloop incall first : bool) (da ds : bool) : bool :=
   match s with
   | Skip | Eff _ | Await _ | WhileFalse _ => true
-  | Seq a b => wf a inloop incall first && wf b inloop incall (fo a first)
-  | If _ t e => wf t inloop incall false && wf e inloop incall false
-  | While _ b => wf b true incall false && negb (zcnt b false)
+  | Seq a b => wf a inloop incall first da ds && wf b inloop incall (fo a first) da ds
+  | If _ t e => wf t inloop incall false da ds && wf e inloop incall false da ds
+  | While _ b => wf b true incall false da ds && negb (zcnt b false)
   | Break | Continue => inloop
   (* a [return] that is the very first action of the process is excluded: Coro.exec clears [first]
      there, the compiler's first state is still empty (see the report) *)
   | Return => incall && negb first
-  | Call b => wf b false true first
+  | Call b => wf b false true first da ds
   (* n >= 1 (the library asserts it); wait_for(1) as the very first action of the process is
      excluded: the code resumes in the same clock, Coro.exec one clock later (known finding C16,
      [lower_wait1_first_refuted]) *)
   | Wait n => (1 <=? n) && negb ((n =? 1) && first)
-  | WaitIn _ => false
+  (* run-time durations: only in the [da] grammars, whose theorem assumes the duration input
+     non-negative ([okd]); without allow_zero the duration must be >= 1 ([ds]) *)
+  | WaitIn az => da && (az || ds)
   end.
+
+(** the input assumption of the grammars with run-time durations: [da] = the program may read the
+    duration input (it is an unsigned port: >= 0), [ds] = it contains a wait_for without allow_zero
+    (the library leaves duration 0 undefined there: the counter wraps) *)
+Definition okd (da ds : bool) (inp : cinp) : Prop :=
+  (da = true -> 0 <= inp.(i_dur)) /\ (ds = true -> 1 <= inp.(i_dur)).
 
 (** fuel: [Coro.exec] is fuelled ([ref_fuel] per clock).  [fneed s nf] bounds the interpreter
     steps of [s] followed by a continuation that needs [nf]; [fchk] checks the bound against
@@ -261,10 +278,14 @@ Fixpoint fchk (s : stmt) (nf : nat) : bool :=
   | While _ b =>
       let nl := S (S (fneed b (S nf))) in
       Nat.leb (fneed b (S nf)) ref_fuel && Nat.leb nf ref_fuel && fchk b nl
-  | Await _ | WhileFalse _ | Wait _ => Nat.leb nf ref_fuel
+  | Await _ | WhileFalse _ | Wait _ | WaitIn _ => Nat.leb nf ref_fuel
   | Call b => fchk b (S nf)
   | _ => true
   end.
 
 Definition in_grammar (p : stmt) : bool :=
-  wf p false false true && fchk p 1 && Nat.leb (fneed p 1) ref_fuel.
+  wf p false false true false false && fchk p 1 && Nat.leb (fneed p 1) ref_fuel.
+
+(** with run-time durations; [ds]: wait_for(self.dur) without allow_zero allowed *)
+Definition in_grammar_dur (ds : bool) (p : stmt) : bool :=
+  wf p false false true true ds && fchk p 1 && Nat.leb (fneed p 1) ref_fuel.
